@@ -23,6 +23,7 @@ func atomPoint(p any, op string) bool {
 	if s == nil {
 		s = &atomState{}
 		atoms[k] = s
+		e.pinned = append(e.pinned, p)
 	}
 	e.point("atomic."+op, nil, -1)
 	me := e.cur
